@@ -311,6 +311,30 @@ def conformsAll : List Ty → List Val → Bool
   | _, _ => false
 end
 
+/-- `DataType::is_nested` -/
+def Ty.isNested : Ty → Bool
+  | .leaf _ => false
+  | .null => false
+  | .dict t => t.isNested
+  | .ree t => t.isNested
+  | _ => true
+
+mutual
+/-- `RowConverter::supports_datatype`: everything non-nested, lists / structs / run-end of
+supported types; a dictionary of a nested type is rejected (`NotYetImplemented`) -/
+def supportsDatatype : Ty → Bool
+  | .leaf _ => true
+  | .null => true
+  | .struct fs => supportsAll fs
+  | .list t => supportsDatatype t
+  | .fsl _ t => supportsDatatype t
+  | .dict t => !t.isNested
+  | .ree t => supportsDatatype t
+def supportsAll : List Ty → Bool
+  | [] => true
+  | t :: ts => supportsDatatype t && supportsAll ts
+end
+
 /-- a row of arbitrary fields -/
 def encodeRowN : List (Ty × SortOptions) → List Val → List UInt8
   | (t, o) :: fs, v :: vs => encode o t v ++ encodeRowN fs vs
